@@ -5,8 +5,17 @@ from harness import lib
 
 def impl_lcs(n, m, rel):
     from xmldiff.utils import longest_common_subsequence as lcs
+
+    def pred(x, y):
+        # a legitimate predicate may itself use the helper (re-entrancy): a similarity defined through an
+        # inner LCS.  Its value is still a function of (x, y) only.
+        if (x + 2 * y) % 3 == 0:
+            inner = lcs([1, 2, 3, 4, 5], [3, 1, 5, 2], lambda a, b: a == b)
+            inner = list(inner) if inner is not None else None
+            assert inner is None or len(inner) <= 4
+        return bool(rel[x][y])
     try:
-        r = lcs(list(range(n)), list(range(m)), lambda x, y: bool(rel[x][y]))
+        r = lcs(list(range(n)), list(range(m)), pred)
         return None if r is None else [tuple(p) for p in r]
     except Exception as ex:  # noqa
         return "exc:" + type(ex).__name__
